@@ -203,6 +203,19 @@ CLAIMED = {
         "contract-based deductive verification: symbolic execution of the real interface/model code on enumerated shapes (own VC generator, z3) + bounded eager/jit/vmap agreement",
         "DESIGN.md §3 C03",
     ),
+    "C13": (
+        "other",
+        "Proved: the tau2 kernel returns b*/gamma(key, a*) with a* = a + rank/2 and b* = b + beta'K beta/2, all read from the state handed to "
+        "the transition (real closure executed; Group.value_from proved separately); the model's joint log-density as a function of tau2 "
+        "(InverseGamma prior + coefficient prior obtained by executing the real from_penalty / _log_prob) differs from log IG(tau2; a*, b*) by a "
+        "constant (z3 nonlinear reals); the finite-discrete kernel's logits are the model's joint log-density at each outcome with all other "
+        "values from the given coherent state (real kernel + real Model.update executed on a concrete graph), the draw is "
+        "outcomes[categorical(key, logits)], the user's model untouched (14 obligations). That b/Gamma(a,1) ~ IG(a,b) and that categorical "
+        "samples proportionally to exp(logits) are sampler contracts (trusted) - the distributional conclusion rests on them, hence 'other'.",
+        "A-RNG sampler contracts, A-TFP InverseGamma closed form, A-LA x'(K/v)x = x'Kx / v, A-REAL; one graph shape for the discrete kernel.",
+        "contract-based deductive verification: algebraic identity over the real density code + symbolic execution of the real kernels; sampler primitives trusted",
+        "DESIGN.md §3 C13",
+    ),
 }
 
 NOT_APPLICABLE = {
